@@ -278,6 +278,7 @@ type vCtr struct {
 	milli    int64 // CPU request
 	limit    int64 // CPU limit (milli), 0 = none
 	mem      int64 // memory limit, 0 = none
+	swapK    int   // memory+swap limit: 0 none, 1 equal to the memory limit (no swap), 2 larger (limited swap)
 	state    api.ContainerState
 }
 
@@ -311,6 +312,12 @@ func (c *vCtr) nri() *api.Container {
 	}
 	if c.mem > 0 {
 		res.Memory.Limit = api.Int64(c.mem)
+		switch c.swapK {
+		case 1:
+			res.Memory.Swap = api.Int64(c.mem)
+		case 2:
+			res.Memory.Swap = api.Int64(c.mem + c.mem/2)
+		}
 	}
 	oom := int64(1000)
 	switch c.pod.qos {
@@ -398,7 +405,7 @@ func vGenPod(rng *rand.Rand, n int) *vPod {
 }
 
 func vGenCtr(rng *rand.Rand, p *vPod, n int, machineCPUs int) *vCtr {
-	c := &vCtr{id: fmt.Sprintf("c%d", n), name: fmt.Sprintf("ctr%d", n), pod: p}
+	c := &vCtr{id: fmt.Sprintf("c%d", n), name: fmt.Sprintf("ctr%d", n), pod: p, swapK: n % 3}
 	millis := []int64{100, 250, 500, 999, 1000, 1001, 1500, 2000, 2500, 3000, 4000}
 	c.milli = millis[rng.Intn(len(millis))]
 	if rng.Intn(6) == 0 {
@@ -481,6 +488,25 @@ func vMutateCfg(rng *rand.Rand, cur cfgapi.ResmgrConfig, m *verifgen.Machine) (c
 				kind = "bad:unsatisfiable-reservation"
 			}
 			if kind != "" {
+				// a rejected update usually differs from the active configuration in more than the offending piece:
+				// every second one also flips behavioural options, which must not leak either
+				if rng.Intn(2) == 0 {
+					switch rng.Intn(4) {
+					case 0:
+						o.PinCPU, o.PinMemory = !o.PinCPU, !o.PinMemory
+					case 1:
+						o.PinMemory = !o.PinMemory
+					case 2:
+						o.ColocatePods, o.ColocateNamespaces = !o.ColocatePods, !o.ColocateNamespaces
+					default:
+						if len(o.ReservedPoolNamespaces) == 0 {
+							o.ReservedPoolNamespaces = []string{"reserved-*"}
+						} else {
+							o.ReservedPoolNamespaces = nil
+						}
+					}
+					kind += "+options"
+				}
 				return n, kind, "-"
 			}
 		}
@@ -538,6 +564,26 @@ func vMutateCfg(rng *rand.Rand, cur cfgapi.ResmgrConfig, m *verifgen.Machine) (c
 			case 5:
 				o.BalloonDefs[0].MinBalloons, o.BalloonDefs[0].MaxBalloons, o.BalloonDefs[0].MinCpus, o.BalloonDefs[0].MaxCpus = len(online)+1, 0, 1, 0
 				kind = "bad:unsatisfiable-capacity"
+			}
+			if rng.Intn(2) == 0 {
+				t, f := true, false
+				switch rng.Intn(3) {
+				case 0:
+					if o.PinCPU != nil && !*o.PinCPU {
+						o.PinCPU = &t
+					} else {
+						o.PinCPU = &f
+					}
+				case 1:
+					if o.PinMemory != nil && !*o.PinMemory {
+						o.PinMemory = &t
+					} else {
+						o.PinMemory = &f
+					}
+				default:
+					o.ReservedPoolNamespaces = append(o.ReservedPoolNamespaces, "default", "prod")
+				}
+				kind += "+options"
 			}
 			return n, kind, "-"
 		}
